@@ -136,6 +136,44 @@ def run(rep, tier, rng):
             if nfail == 1:
                 rep.violation({"kind": "oracle", "what": msg, "case_kind": "read", "case": c, "ops": ops,
                                "physical_order": list(perm), "filler_words": fillers, "type": code})
+    # ---- a record of ANOTHER type with a payload (a Point among Multipoints) stored directly before the record the index
+    # lists next, no filler: the typed reader answers it with an error and must still find the next record where the
+    # index says
+    mixed_cases, mixed_meta = [], []
+    for trial in range(6 if tier != "thorough" else 30):
+        pt = lambda k: {"code": 8, "box": [1, 2, 3, 4], "pts": [[0x3FF0000000000000 + (k << 40) + j, 0x4000000000000000 + j] for j in range(1 + k % 3)]}
+        mm = {"type": 8, "box": [0] * 8, "records": [{"num": 1, "shape": pt(1)}, {"num": 2, "shape": {"code": 1, "x": 0x3FF0000000000000, "y": 0x4000000000000000}},
+                                                    {"num": 3, "shape": pt(2)}, {"num": 4, "shape": pt(3)}]}
+        perm = [(0, 1, 2, 3), (1, 2, 0, 3), (0, 3, 1, 2), (3, 1, 2, 0), (1, 2, 3, 0), (2, 1, 3, 0)][trial % 6]
+        mshp, mentries = build_layout(rng, mm, perm, [0] * 5, lambda k: bytes(k))
+        mshx = refesri.encode_shx(mm, entries=mentries)
+        items = [("ok", refesri.denote(r["shape"])) for r in mm["records"]]
+        items[1] = ("err", 8, 8, 1)
+        for ops in ([("it", -1)], [("it", 2), ("it", -1)], [("nth", 1), ("it", -1)], [("seek", 1), ("it", -1), ("nth", 2)]):
+            mixed_cases.append(C.read_case(8, mshp, mshx, ops))
+            mixed_meta.append((items, ops, perm))
+    mimpl = stages.correspondence(rep, "read_mixed", dev, mixed_cases, "read(typed iteration over a record of another type, no filler)")
+    for c, (items, ops, perm), r in zip(mixed_cases, mixed_meta, mimpl):
+        msg = C04.check_against_abstract(C.parse_read(r, ops), ops, items, 4)
+        if msg:
+            nfail += 1
+            rep.violation({"kind": "oracle", "what": "Multipoint file with a Point record (physical order %r, no filler), typed reader: %s" % (list(perm), msg),
+                           "case_kind": "read", "case": c, "ops": ops})
+            break
+    # ---- the complete reader (shapes paired with table rows) counts shapes by the index too, whatever the table holds
+    import C08
+    m4 = F.gen_model(rng, 1, nrecs=4, null_prob=0.0)
+    m4.pop("trailing", None)
+    shp4, shx4 = refesri.encode_shp(m4), refesri.encode_shx(m4)
+    ccases = [[17] + C.pack_bytes(shp4) + [1] + C.pack_bytes(shx4) + [nrows] + C08.pair_case([], [("count",), ("it", -1)])[2:] for nrows in (0, 3, 4, 6, 9)]
+    for c, r in zip(ccases, stages.correspondence(rep, "pairfile", dev, ccases, "pairfile(shape_count of the complete reader)", vm_sample=5)):
+        if r[:1] == [0]:
+            res = C08.parse_pair([0, 0, 0, 0] + r, 0, [("count",), ("it", -1)])
+            if res["ops"][0]["count"] != 4:
+                nfail += 1
+                rep.violation({"kind": "oracle", "what": "the complete reader on an index of 4 entries beside a table of %d rows reports %r shapes"
+                               % (c[-7] if False else [x for x in (0, 3, 4, 6, 9)][ccases.index(c)], res["ops"][0]["count"]), "case_kind": "pairfile", "case": c[:60]})
+                break
     # ---- permuted layouts on disk under a dotted name, read through the path-based one-liners (which must find and
     # follow the .shx beside the .shp)
     import pathio
